@@ -172,6 +172,25 @@ func runC13(c *Ctx) {
 	for _, s := range []string{"me======a", "me======", "me=======", "me=========", "aaaaaaaame======", "me======aaaaaaaa", "me\xff\xff\xff\xff\xff\xff", "m", "mee", "meeeee", "QQ==Q", "QQ==QQ==", "QQ=\n=", "QR==", "=", "==", "====", "========", "\n", "\r\n\r\n"} {
 		c13Decode(c, []byte(s))
 	}
+	// every short string over {alphabet char, '!', '=', LF} appended to padded and unpadded bodies
+	{
+		alpha := []string{"a", "!", "=", "\n"}
+		var tails []string
+		for _, x := range alpha {
+			tails = append(tails, x)
+			for _, y := range alpha {
+				tails = append(tails, x+y)
+				for _, z := range alpha {
+					tails = append(tails, x+y+z)
+				}
+			}
+		}
+		for _, body := range []string{"me======", "mfrgg===", "mfrggzdf", "mfrggzdfmy======", "QQ==", "QUI=", "QUJD", "me", "mfrgg"} {
+			for _, t := range tails {
+				c13Decode(c, []byte(body+t))
+			}
+		}
+	}
 	// line breaks interleaved with padding and stray data: the decoders skip CR/LF everywhere,
 	// so the library's own checks must look through them too
 	for _, body := range []string{"me======", "mfrgg===", "mfrggzdf", "QQ==", "QUI=", "QUJD"} {
